@@ -650,6 +650,16 @@ fn gen_store_txn(rng: &mut Rng, thorough: bool, out: &mut Vec<String>) {
             }
             probe(out);
         }
+        // tombstoning while the transaction is open: the user's states come out of a merged map there, in no
+        // particular order; cut in the middle of the user with the most states
+        {
+            let u = (0..users as usize).max_by_key(|u| plan[*u].len()).unwrap_or(0);
+            let mid = plan[u][plan[u].len() / 2];
+            out.push(format!("st.tombstone {} {} 0", u, if plan[u].len() > 1 { mid - 1 } else { mid }));
+            probe(out);
+            out.push(format!("st.tombstone {} {} 0", rng.below(users), rng.range(1, 5)));
+            out.push(format!("st.userdata {} 0", u));
+        }
         out.push("st.begin".into());
         if rng.chance(1, 2) {
             out.push(format!("st.set azks:{}:{} 0", rng.range(1, 5), rng.range(1, 7)));
